@@ -260,7 +260,7 @@ def run_named(spec: dict[str, Any], naming: dict[str, Any], col: common.Collecto
             col.histo("either_outcome", "error:" + f.stage)
             return
         from vf.checks.c01 import loopy_limitation, trusted_base_signatures
-        if loopy_limitation(f.stage, f.exc, f.detail) or trusted_base_signatures(bp.program):
+        if loopy_limitation(f.stage, f.exc, f.detail, bp) or trusted_base_signatures(bp.program):
             return
         col.histo("compile_failed", f.stage)      # C01's business unless naming-specific
         return
